@@ -75,7 +75,10 @@ class IgnoreDirectiveParser:
         with suppress(KeyError):
             return self._ignore_cache[path_str]
         try:
-            check_path = str(file_path.relative_to(self.project_root))
+            relative = file_path.relative_to(self.project_root)
+            if ".." in relative.parts:  # <root>/pkg/../pkg/gen.py is pkg/gen.py
+                raise ValueError(relative)
+            check_path = str(relative)
         except ValueError:
             check_path = self._path_in_project(file_path, path_str)
         result = any(matches_pattern(check_path, p) for p in self.repo_patterns)
